@@ -432,8 +432,9 @@ class ObjectMixin:
             return e
         # derived list: only L[0] (first match) is supported
         ks = z3.simplify(k)
-        if z3.is_int_value(ks) and ks.as_long() == 0 and len(rec.segs) == 1 and not isinstance(rec.segs[0], tuple):
-            s = rec.segs[0]
+        segs = [x for x in rec.segs if not (isinstance(x, tuple) and not x[1])]
+        if z3.is_int_value(ks) and ks.as_long() == 0 and len(segs) == 1 and not isinstance(segs[0], tuple):
+            s = segs[0]
             n = self.ops.list_len(lst)
             if not self.pure and self.st.branch(n <= 0):
                 self.raise_builtin("IndexError", "list index out of range")
